@@ -268,6 +268,21 @@ Definition sg0 : bytes := [98;65;65;67; 65;65;65;67] ++ ex_mid ++ ex_vid ++ [104
 Definition sg1 : bytes := [98;65;65;68; 65;65;65;66] ++ ex_mid ++ [33] ++ ex_sig.                (* gram 1 *)
 Definition ug0 : bytes := [98;65;65;65; 65;65;65;66] ++ ex_mid ++ [104;105].                     (* single gram memo *)
 
+(* ---- the receiver's own configuration does not matter ---- *)
+(* .code / .curt / .size of a Memoer are its TRANSMIT settings (used by rend).
+   The receive side of the model has no access to them at all: pick, store,
+   fuse take no such argument, and setting them at any point of any run changes
+   nothing of the receive state (what may matter on receive is authic and keep). *)
+Theorem C20_receiver_config_irrelevant : forall verify authic ops s,
+  fst (run verify authic s ops) = fst (run verify authic s (filter not_rxset ops)).
+Proof. exact rxset_irrelevant. Qed.
+Print Assumptions C20_receiver_config_irrelevant.
+
+Example C20_receiver_config_example :
+  inbox (fst (run toy_verify false init [RxSet (SetSize 1); Dgram ug0 1; RxSet (SetCurt true); SvcAllRx])) =
+  [([104;105], 1, None)].
+Proof. vm_compute. reflexivity. Qed.
+
 (* D23a: both grams of a signed memo arrive, the non-zeroth one first: it is
    dropped for good (no vid to verify against yet) and the memo is never
    delivered, however often the receiver is serviced afterwards. *)
